@@ -748,10 +748,11 @@ static FIRST_BAD: AtomicU64 = AtomicU64::new(u64::MAX);
 static FIRST_BAD_CODE: AtomicI32 = AtomicI32::new(0);
 static FORK_FAILURES: AtomicU64 = AtomicU64::new(0);
 /// preemption points at which the interfering query blocked (A was preempted while holding a lock B needs): with real
-/// threads B would simply wait for A, so such a point is not a verdict; the next SKIP_AFTER_BLOCK points are not forked
+/// threads B would simply wait for A, so such a point is not a verdict; see BACKOFF
 static BLOCKED_POINTS: AtomicU64 = AtomicU64::new(0);
 static SKIP_UNTIL: AtomicU64 = AtomicU64::new(0);
-const SKIP_AFTER_BLOCK: u64 = 150;
+/// (kept for the replay format; no point is skipped after a blocked one)
+static BACKOFF: AtomicU64 = AtomicU64::new(1);
 static TEXT_LO: AtomicUsize = AtomicUsize::new(0);
 static TEXT_HI: AtomicUsize = AtomicUsize::new(0);
 static mut PREEMPT_B: Option<(*const dyn Subj, Vec<Q>, Vec<Ans>)> = None;
@@ -796,13 +797,13 @@ extern "C" fn on_trap(_sig: libc::c_int, _info: *mut libc::siginfo_t, uc: *mut l
             STEP_ON.store(false, Relaxed);
             IN_CHILD.store(true, Relaxed);
             (*uc).uc_mcontext.gregs[libc::REG_EFL as usize] &= !0x100;
-            // B must finish within 60 ms; if it blocks on something the preempted A holds, SIGALRM ends this child
+            // B (microseconds of work) must finish within 3 ms; if it blocks on something the preempted A holds, SIGALRM ends this child
             libc::signal(libc::SIGALRM, libc::SIG_DFL);
             let mut sigs: libc::sigset_t = std::mem::zeroed();
             libc::sigemptyset(&mut sigs);
             libc::sigaddset(&mut sigs, libc::SIGALRM);
             libc::sigprocmask(libc::SIG_UNBLOCK, &sigs, std::ptr::null_mut());
-            let on = libc::itimerval { it_interval: libc::timeval { tv_sec: 0, tv_usec: 0 }, it_value: libc::timeval { tv_sec: 0, tv_usec: 60_000 } };
+            let on = libc::itimerval { it_interval: libc::timeval { tv_sec: 0, tv_usec: 0 }, it_value: libc::timeval { tv_sec: 0, tv_usec: 3_000 } };
             libc::setitimer(libc::ITIMER_REAL, &on, std::ptr::null_mut());
             #[allow(static_mut_refs)]
             if let Some((s, qs, want)) = PREEMPT_B.as_ref() {
@@ -827,8 +828,13 @@ extern "C" fn on_trap(_sig: libc::c_int, _info: *mut libc::siginfo_t, uc: *mut l
         let code = if libc::WIFEXITED(status) { libc::WEXITSTATUS(status) } else { 100 + libc::WTERMSIG(status) };
         if code == 100 + libc::SIGALRM {
             BLOCKED_POINTS.fetch_add(1, Relaxed);
-            SKIP_UNTIL.store(point + SKIP_AFTER_BLOCK, Relaxed);
-        } else if code != 0 {
+            // every following point is probed again (3 ms each while the blocking lasts): the instructions right after a
+            // critical section - where a lock released too early shows - must not be skipped
+            let _ = BACKOFF.load(Relaxed);
+            return;
+        }
+        BACKOFF.store(1, Relaxed);
+        if code != 0 {
             BAD_POINTS.fetch_add(1, Relaxed);
             if FIRST_BAD.load(Relaxed) == u64::MAX {
                 FIRST_BAD.store(point, Relaxed);
@@ -979,6 +985,7 @@ fn run_preempt(ctx: &mut Ctx, d: &SubjDesc, max_triples: usize, fresh_mode: u8) 
                 }
                 POINTS.store(0, SeqCst);
                 SKIP_UNTIL.store(0, SeqCst);
+                BACKOFF.store(1, SeqCst);
                 BAD_POINTS.store(0, SeqCst);
                 FIRST_BAD.store(u64::MAX, SeqCst);
                 STEP_ON.store(true, SeqCst);
